@@ -135,7 +135,7 @@ func reloadSim(r *simcore.Run) {
 			w.steps = [][]byte{nil}
 			w.why = "truncated-to-empty-first"
 		case 3:
-			bad := simcore.Pick(s, []string{"rsa1024", "ed25519", "garbage", "cert-only"}, "bad")
+			bad := simcore.Pick(s, []string{"rsa1024", "rsa2560", "rsa3584", "ed25519", "garbage", "cert-only"}, "bad")
 			var b []byte
 			switch bad {
 			case "garbage":
